@@ -515,6 +515,9 @@ def run_property(prop, tier, seed, scratch, a):
     # obligation, an undecided second run stays inconclusive).
     retry = [i for i, (job, r) in enumerate(results) if job.core and job.kind in ("rsx", "kani") and r["status"] in ("timeout", "error")
              and re.search(r"answered unknown|no result within|time-budget|timed out|timeout|out of memory|without a failed check", r.get("detail", "") + r["status"])]
+    # a timeout is only worth a second attempt when the budget was tight relative to the measured cost
+    # (machine load slows a job 3-4x; a job that used 8x its cost or more has exploded on changed code)
+    retry = [i for i in retry if not (results[i][1]["status"] == "timeout" and results[i][0].timeout >= 8 * max(results[i][0].cost, 1))]
     for i in retry[:8]:
         job, r0 = results[i]
         say("  [%s] retrying alone with scaled time caps: %s (%s)" % (prop, job.id[:70], r0.get("detail", "")[:80]))
